@@ -28,17 +28,15 @@ if tests:
 sh(f"git -C {wt} checkout -- .")
 print(f"demo unchanged exit={r0.returncode} changed exit={r1.returncode}; tests: {tr}")
 ok_seed = r0.returncode == 0 and r1.returncode == 1
-# now against /repo
-st = sh("git -C /repo status --short")
-if st.stdout.strip():
-    print("/repo not clean, abort"); sys.exit(2)
-a = sh(f"git -C /repo apply {patch}")
+# now the check, against the scratch worktree with the change applied (VERIF_REPO; /repo itself is never touched, so checks running
+# in the background are not disturbed)
+a = sh(f"git -C {wt} apply {patch}")
 if a.returncode:
-    print("patch does not apply to /repo:", a.stderr); sys.exit(2)
+    print("patch does not apply to worktree:", a.stderr); sys.exit(2)
 try:
-    c = sh(f"./check {prop}", cwd=R)
+    c = sh(f"./check {prop}", cwd=R, env=dict(os.environ, VERIF_REPO=wt))
 finally:
-    sh("git -C /repo checkout -- .")
+    sh(f"git -C {wt} checkout -- .")
     # the evidence file written by the seeded run must not be kept: restore the committed one
     sh(f"git -C {R} checkout -- evidence/{prop}.json")
 lines = [l for l in c.stdout.splitlines() if l.startswith(("VIOLATION", "ENGINE-ERROR", "UNDECIDED", "obligation failed", prop + ":"))]
@@ -51,5 +49,5 @@ shutil.copy(patch, os.path.join(d, "patch.diff"))
 shutil.copy(demo, os.path.join(d, os.path.basename("demo.py")))
 meta = json.load(open(f"{outdir}/meta_{k}.json"))
 meta.update({"property": prop, "confirmed_by_me": {"demo_exit_unchanged": r0.returncode, "demo_exit_changed": r1.returncode, "tests": tests, "tests_result": tr, "seed_valid": ok_seed},
-             "check_result": {"cmd": f"./check {prop}", "exit": c.returncode, "caught": c.returncode == 1, "lines": lines[:6]}})
+             "check_result": {"cmd": f"VERIF_REPO=<scratch worktree with patch.diff applied> ./check {prop}", "exit": c.returncode, "caught": c.returncode == 1, "lines": lines[:6]}})
 json.dump(meta, open(os.path.join(d, "meta.json"), "w"), indent=1)
